@@ -106,13 +106,22 @@ theorem matchV2_counted (rootOf : Bytes → Bytes) (ds : Nat) (filemap : FileMap
 
 /-! ### `_find_matches` -/
 
-/-- the `copypath` calls made for a matching combination (last node first) -/
+/-- the `copypath` calls made for a matching combination (last node first; none for a
+    padding node) -/
 def comboCalls (dest : Path) : List PathNode → List (Path × Bytes) → List (Path × Path)
   | pn :: ps, c :: cs =>
-    comboCalls dest ps cs ++ (match safeJoin dest pn.file.full with
+    comboCalls dest ps cs ++ (if pn.file.pad then [] else
+                              match safeJoin dest pn.file.full with
                               | some dp => [(c.1, dp)]
                               | none => [])
   | _, _ => []
+
+theorem nodePart_pad {pn : PathNode} (h : pn.file.pad = true) (d : Bytes) : nodePart pn d = padPart pn := by
+  simp [nodePart, h]
+
+theorem nodePart_file {pn : PathNode} (h : pn.file.pad = false) (d : Bytes) :
+    nodePart pn d = getPart pn.start pn.stop d := by
+  simp [nodePart, h]
 
 theorem findMatches_sound (H1 : Bytes → Bytes) (fs : FS) (filemap : FileMap) (dest : Path)
     (piece : Bytes) (paths : List PathNode) :
@@ -131,6 +140,15 @@ theorem findMatches_sound (H1 : Bytes → Bytes) (fs : FS) (filemap : FileMap) (
   | cons pn ps ih =>
     intro data calls h
     simp only [findMatches] at h
+    cases hpad : pn.file.pad with
+    | true =>
+      simp only [hpad, if_true] at h
+      obtain ⟨choice, hcombo, hhash, hcalls⟩ := ih _ _ h
+      refine ⟨([], []) :: choice, ⟨fun hf => absurd (hpad.symm.trans hf) (by decide), hcombo⟩, ?_, ?_⟩
+      · simpa [comboData, nodePart_pad hpad, List.append_assoc] using hhash
+      · simp [comboCalls, hpad, hcalls]
+    | false =>
+    simp only [hpad, Bool.false_eq_true, if_false] at h
     cases hl : filemap.lookup pn.file.filename with
     | none => rw [hl] at h; cases h
     | some cands =>
@@ -152,15 +170,16 @@ theorem findMatches_sound (H1 : Bytes → Bytes) (fs : FS) (filemap : FileMap) (
             simp only at hf
             injection hf with hf
             obtain ⟨choice, hcombo, hhash, hcalls⟩ := ih _ _ hrec
-            refine ⟨(c.1, d) :: choice, ⟨⟨cands, c.2, hl, hc, ?_, hr⟩, hcombo⟩, ?_, ?_⟩
+            refine ⟨(c.1, d) :: choice, ⟨fun _ => ⟨cands, c.2, hl, hc, ?_, hr⟩, hcombo⟩, ?_, ?_⟩
             · exact Classical.not_not.mp hsz
-            · simpa [comboData, List.append_assoc] using hhash
-            · simp only [comboCalls]; rw [← hf, hcalls]
+            · simpa [comboData, nodePart_file hpad, List.append_assoc] using hhash
+            · simp only [comboCalls, hpad, Bool.false_eq_true, if_false]; rw [← hf, hcalls]
               cases safeJoin dest pn.file.full <;> rfl
 
 theorem comboCalls_mem {dest : Path} {paths : List PathNode} :
     ∀ {choice : List (Path × Bytes)} {src dst : Path}, (src, dst) ∈ comboCalls dest paths choice →
-      ∃ pc ∈ List.zip paths choice, pc.2.1 = src ∧ safeJoin dest pc.1.file.full = some dst := by
+      ∃ pc ∈ List.zip paths choice, pc.2.1 = src ∧ safeJoin dest pc.1.file.full = some dst ∧
+        pc.1.file.pad = false := by
   induction paths with
   | nil => intro choice src dst h; simp [comboCalls] at h
   | cons pn ps ih =>
@@ -172,14 +191,19 @@ theorem comboCalls_mem {dest : Path} {paths : List PathNode} :
       rcases h with h | h
       · obtain ⟨pc, hpc, h1⟩ := ih h
         exact ⟨pc, by simp [List.zip_cons_cons, hpc], h1⟩
-      · cases hsj : safeJoin dest pn.file.full with
+      · cases hpad : pn.file.pad with
+        | true => rw [hpad] at h; simp at h
+        | false =>
+        rw [hpad] at h
+        simp only [Bool.false_eq_true, if_false] at h
+        cases hsj : safeJoin dest pn.file.full with
         | none => rw [hsj] at h; simp at h
         | some dp =>
           rw [hsj] at h
           simp at h
           obtain ⟨h1, h2⟩ := h
           subst h1 h2
-          exact ⟨(pn, c), by simp [List.zip_cons_cons], rfl, hsj⟩
+          exact ⟨(pn, c), by simp [List.zip_cons_cons], rfl, hsj, hpad⟩
 
 /-! ### v1 -/
 
@@ -189,7 +213,8 @@ theorem comboCalls_mem {dest : Path} {paths : List PathNode} :
 def GoodV1 (H1 : Bytes → Bytes) (filemap : FileMap) (dest : Path)
     (pieceNodes : List (Bytes × List PathNode)) (fs : FS) (src dst : Path) : Prop :=
   ∃ pp ∈ pieceNodes, ∃ choice, Combo fs filemap pp.2 choice ∧ H1 (comboData pp.2 choice) = pp.1 ∧
-    ∃ pc ∈ List.zip pp.2 choice, pc.2.1 = src ∧ safeJoin dest pc.1.file.full = some dst
+    ∃ pc ∈ List.zip pp.2 choice, pc.2.1 = src ∧ safeJoin dest pc.1.file.full = some dst ∧
+      pc.1.file.pad = false
 
 theorem matchV1Loop_run (H1 : Bytes → Bytes) (ds : Nat) (filemap : FileMap) (dest : Path)
     (all : List (Bytes × List PathNode)) (pns : List (Bytes × List PathNode)) :
@@ -217,7 +242,7 @@ theorem matchV1Loop_run (H1 : Bytes → Bytes) (ds : Nat) (filemap : FileMap) (d
 
 theorem markCopied_counted (dest : Path) (paths : List PathNode) :
     ∀ copied, ∀ f ∈ (markCopied dest copied paths).2,
-      (safeJoin dest f).isSome ∧ ∃ pn ∈ paths, pn.file.full = f := by
+      (safeJoin dest f).isSome ∧ ∃ pn ∈ paths, pn.file.full = f ∧ pn.file.pad = false := by
   induction paths with
   | nil => intro copied f h; simp [markCopied] at h
   | cons pn ps ih =>
@@ -226,28 +251,33 @@ theorem markCopied_counted (dest : Path) (paths : List PathNode) :
     split at h
     · obtain ⟨h1, pn', hp, h2⟩ := ih copied f h
       exact ⟨h1, pn', List.mem_cons_of_mem _ hp, h2⟩
-    · simp only [List.mem_append] at h
-      rcases h with h | h
-      · split at h
-        · rename_i hs
-          simp at h
-          subst h
-          exact ⟨hs, pn, List.mem_cons_self, rfl⟩
-        · simp at h
-      · obtain ⟨h1, pn', hp, h2⟩ := ih _ f h
+    · rename_i hpad
+      split at h
+      · obtain ⟨h1, pn', hp, h2⟩ := ih copied f h
         exact ⟨h1, pn', List.mem_cons_of_mem _ hp, h2⟩
+      · simp only [List.mem_append] at h
+        rcases h with h | h
+        · split at h
+          · rename_i hs
+            simp at h
+            subst h
+            exact ⟨hs, pn, List.mem_cons_self, rfl, by simpa using hpad⟩
+          · simp at h
+        · obtain ⟨h1, pn', hp, h2⟩ := ih _ f h
+          exact ⟨h1, pn', List.mem_cons_of_mem _ hp, h2⟩
 
 theorem matchV1Loop_counted (H1 : Bytes → Bytes) (ds : Nat) (filemap : FileMap) (dest : Path)
     (pns : List (Bytes × List PathNode)) :
     ∀ fs copied, ∀ f ∈ (matchV1Loop H1 ds filemap dest fs copied pns).2,
-      (safeJoin dest f).isSome ∧ ∃ pp ∈ pns, ∃ pn ∈ pp.2, pn.file.full = f := by
+      (safeJoin dest f).isSome ∧ ∃ pp ∈ pns, ∃ pn ∈ pp.2, pn.file.full = f ∧ pn.file.pad = false := by
   induction pns with
   | nil => intro fs copied f h; simp [matchV1Loop] at h
   | cons pp rest ih =>
     intro fs copied f h
     obtain ⟨piece, paths⟩ := pp
-    have lift : ((safeJoin dest f).isSome ∧ ∃ pp ∈ rest, ∃ pn ∈ pp.2, pn.file.full = f) →
-        (safeJoin dest f).isSome ∧ ∃ pp ∈ (piece, paths) :: rest, ∃ pn ∈ pp.2, pn.file.full = f := by
+    have lift : ((safeJoin dest f).isSome ∧ ∃ pp ∈ rest, ∃ pn ∈ pp.2, pn.file.full = f ∧ pn.file.pad = false) →
+        (safeJoin dest f).isSome ∧ ∃ pp ∈ (piece, paths) :: rest, ∃ pn ∈ pp.2,
+          pn.file.full = f ∧ pn.file.pad = false := by
       rintro ⟨h1, pp, hpp, h2⟩; exact ⟨h1, pp, List.mem_cons_of_mem _ hpp, h2⟩
     simp only [matchV1Loop] at h
     split at h
@@ -278,19 +308,20 @@ theorem toPathNodes_mem {files : List FileRec} {nodes : List Node} {pn : PathNod
 
 theorem combo_zip_mem {fs : FS} {filemap : FileMap} {paths : List PathNode} :
     ∀ {choice : List (Path × Bytes)}, Combo fs filemap paths choice →
-      ∀ pc ∈ List.zip paths choice, ∃ cands sz, filemap.lookup pc.1.file.filename = some cands ∧
+      ∀ pc ∈ List.zip paths choice, pc.1.file.pad = false →
+        ∃ cands sz, filemap.lookup pc.1.file.filename = some cands ∧
         (pc.2.1, sz) ∈ cands ∧ sz = pc.1.file.length ∧ fs.readFile? pc.2.1 = some pc.2.2 := by
   induction paths with
   | nil => intro choice _ pc h; simp at h
   | cons pn ps ih =>
-    intro choice hc pc h
+    intro choice hc pc h hpad
     cases choice with
     | nil => simp at h
     | cons c cs =>
       simp only [List.zip_cons_cons, List.mem_cons] at h
       rcases h with h | h
-      · subst h; exact hc.1
-      · exact ih hc.2 pc h
+      · subst h; exact hc.1 hpad
+      · exact ih hc.2 pc h hpad
 
 theorem matchV1_run (H1 : Bytes → Bytes) (ds : Nat) (fs : FS) (filemap : FileMap) (dest : Path)
     (pl : Nat) (pieces : List Bytes) (files : List FileRec) :
@@ -315,10 +346,18 @@ theorem GoodV1.file {H1 : Bytes → Bytes} {filemap : FileMap} {dest : Path} {pl
     (h : GoodV1 H1 filemap dest (v1PieceNodes pl pieces files) fs src dst) :
     ∃ r ∈ files, safeJoin dest r.full = some dst ∧ ∃ cands sz,
       filemap.lookup r.filename = some cands ∧ (src, sz) ∈ cands ∧ sz = r.length := by
-  obtain ⟨pp, hpp, choice, hcombo, _, pc, hpc, h1, h2⟩ := h
-  obtain ⟨cands, sz, hl, hm, hsz, _⟩ := combo_zip_mem hcombo pc hpc
+  obtain ⟨pp, hpp, choice, hcombo, _, pc, hpc, h1, h2, hpad⟩ := h
+  obtain ⟨cands, sz, hl, hm, hsz, _⟩ := combo_zip_mem hcombo pc hpc hpad
   refine ⟨pc.1.file, v1PieceNodes_file hpp (List.of_mem_zip hpc).1, h2, cands, sz, hl, ?_, hsz⟩
   rw [← h1]; exact hm
+
+/-- a padding record is never the target of a `copypath` call -/
+theorem GoodV1.nonpad {H1 : Bytes → Bytes} {filemap : FileMap} {dest : Path} {pl : Nat}
+    {pieces : List Bytes} {files : List FileRec} {fs : FS} {src dst : Path}
+    (h : GoodV1 H1 filemap dest (v1PieceNodes pl pieces files) fs src dst) :
+    ∃ r ∈ files, r.pad = false ∧ safeJoin dest r.full = some dst := by
+  obtain ⟨pp, hpp, choice, _, _, pc, hpc, _, h2, hpad⟩ := h
+  exact ⟨pc.1.file, v1PieceNodes_file hpp (List.of_mem_zip hpc).1, hpad, h2⟩
 
 theorem GoodV2.file {rootOf : Bytes → Bytes} {filemap : FileMap} {dest : Path}
     {files : List FileRec} {fs : FS} {src dst : Path}
@@ -331,10 +370,10 @@ theorem GoodV2.file {rootOf : Bytes → Bytes} {filemap : FileMap} {dest : Path}
 theorem matchV1_counted (H1 : Bytes → Bytes) (ds : Nat) (fs : FS) (filemap : FileMap) (dest : Path)
     (pl : Nat) (pieces : List Bytes) (files : List FileRec) :
     ∀ f ∈ (matchV1 H1 ds fs filemap dest pl pieces files).2,
-      ∃ r ∈ files, f = r.full ∧ (safeJoin dest r.full).isSome := by
+      ∃ r ∈ files, f = r.full ∧ (safeJoin dest r.full).isSome ∧ r.pad = false := by
   intro f hf
-  obtain ⟨h1, pp, hpp, pn, hpn, h2⟩ := matchV1Loop_counted H1 ds filemap dest _ fs [] f hf
-  exact ⟨pn.file, v1PieceNodes_file (pl := pl) (pieces := pieces) hpp hpn, h2.symm, by rw [h2]; exact h1⟩
+  obtain ⟨h1, pp, hpp, pn, hpn, h2, h3⟩ := matchV1Loop_counted H1 ds filemap dest _ fs [] f hf
+  exact ⟨pn.file, v1PieceNodes_file (pl := pl) (pieces := pieces) hpp hpn, h2.symm, by rw [h2]; exact h1, h3⟩
 
 end Impl
 end TorrentVerif
